@@ -5,6 +5,7 @@ import (
 	"encoding/base64"
 	"fmt"
 	"net/http/httptest"
+	"net/url"
 	"os"
 	"path/filepath"
 	"reflect"
@@ -471,7 +472,7 @@ func TestC05Structured(t *testing.T) {
 		anyAccepted := false
 
 		for _, in := range inputs {
-			violation, known, outcomes := runEntryPoints(c.SS.Schema, []byte(in), "/"+typeNames[0])
+			violation, known, outcomes := runEntryPoints(c.SS.Schema, []byte(in), "/"+url.PathEscape(typeNames[0]))
 			if violation != "" {
 				t.Fatalf("C05 violated: %s\nschema: %s\nmutations: %v\ninput: %s", violation, c.SS, muts, in)
 			}
@@ -510,7 +511,7 @@ func TestC05Payload(t *testing.T) {
 		anyAccepted := false
 
 		for _, in := range inputs {
-			violation, known, outcomes := runEntryPoints(ss.Schema, []byte(in), "/"+ss.Types[0].Name)
+			violation, known, outcomes := runEntryPoints(ss.Schema, []byte(in), "/"+url.PathEscape(ss.Types[0].Name))
 			if violation != "" {
 				t.Fatalf("C05 violated: %s\nschema: %s\ninput: %s", violation, ss, in)
 			}
@@ -573,7 +574,7 @@ func TestC05Raw(t *testing.T) {
 			input = []byte(b.String())
 		}
 
-		violation, known, outcomes := runEntryPoints(ss.Schema, input, "/"+ss.Types[0].Name)
+		violation, known, outcomes := runEntryPoints(ss.Schema, input, "/"+url.PathEscape(ss.Types[0].Name))
 		if violation != "" {
 			t.Fatalf("C05 violated: %s\nschema: %s\ninput: %q", violation, ss, input)
 		}
